@@ -28,8 +28,28 @@ def getitem(I, b, ix, node=None):
             return I.new_arr(ArrVal(A.shape, (lambda i, j: A.elem(tz(i), n - 1 - tz(j))), A.sort))
     return I.cur['prev_getitem'](I, b, ix, node)
 
+def setitem(I, b, ix, v, node=None):
+    """a[mask] = scalar and a[:, mask] = scalar for a 1-D boolean mask: element-wise"""
+    A = I.A(b) if isinstance(b, ArrRef) else None
+    if A is not None and not isinstance(v, ArrRef):
+        if isinstance(ix, ArrRef) and I.A(ix).sort == BoolS and I.A(ix).ndim == 1:
+            M = I.A(ix)
+            if npstubs.same_dim(M.shape[0], A.shape[0]) is not True: I.ob('shape:boolean mask store', tz(M.shape[0]) == tz(A.shape[0]), kind='shape')
+            I.st.heap[b.id] = ArrVal(A.shape, lambda *jx: If(M.elem(tz(jx[0])), npstubs.coerce(tz(v), A.sort), A.elem(*jx)), A.sort)
+            return
+        if isinstance(ix, tuple) and len(ix) == 2 and isinstance(ix[0], slice) and ix[0] == slice(None) and isinstance(ix[1], ArrRef) and I.A(ix[1]).sort == BoolS and A.ndim == 2:
+            M = I.A(ix[1])
+            if npstubs.same_dim(M.shape[0], A.shape[1]) is not True: I.ob('shape:boolean mask store', tz(M.shape[0]) == tz(A.shape[1]), kind='shape')
+            I.st.heap[b.id] = ArrVal(A.shape, lambda i, j: If(M.elem(tz(j)), npstubs.coerce(tz(v), A.sort), A.elem(i, j)), A.sort)
+            return
+    return I.cur['prev_setitem'](I, b, ix, v, node)
+
 def extend_ext(ext):
     skstubs.install(ext)
+    ps = ext['arr_setitem']
+    def st(I, b, ix, v, node=None):
+        I.cur['prev_setitem'] = ps; return setitem(I, b, ix, v, node)
+    ext['arr_setitem'] = st
     pg = ext['arr_getitem']
     def g(I, b, ix, node=None):
         I.cur['prev_getitem'] = pg; return getitem(I, b, ix, node)
@@ -67,10 +87,13 @@ def u_truncated(owner, solver):
     q = owner + '._decompose_truncated'
     def body(I):
         n, m, k = I.fresh('n', IntS), I.fresh('m', IntS), I.fresh('k', IntS)
-        I.assume(And(n >= 2, m >= 2, k >= 1, k < n, k < m))
+        I.assume(And(n >= 2, m >= 2, k >= 1, k < n, k < m)); m = n if owner == KP else m
         I.cur = {}
         cls = I.repo.get(owner)
-        me = I.new_obj(cls, dict(n_components_=k, n_samples_in_=n, n_features_in_=m, svd_solver=solver, fit_svd_solver_=solver, tol=I.fresh('tol', RealS), random_state=0, iterated_power='auto'))
+        tol = I.fresh('tol', RealS)
+        me = I.new_obj(cls, dict(n_components_=k, n_samples_in_=n, n_features_in_=m, svd_solver=solver, fit_svd_solver_=solver, _fit_svd_solver=solver, tol=tol, random_state=0, iterated_power='auto'))
+        kernel = owner == KP
+        cut = (lambda sv, val: If(sv < tol, RealVal(0), val)) if kernel else (lambda sv, val: val)      # KernelPCovR zeroes the components whose singular value is below tol
         mat = I.fresh_arr('mat', (n, n))
         U, S, Vt = I.call_func(I.find_method(cls, '_decompose_truncated'), [me, mat], {})
         Ua, Sa, Va = I.A(U), I.A(S), I.A(Vt)
@@ -80,13 +103,14 @@ def u_truncated(owner, solver):
             ar = I.cur.get('svds_args')
             I.ob('post[C03]:the-k-leading-triplets-of-the-matrix-handed-in-are-requested', BoolVal(ar is not None and ar['mat'].id == mat.id) if ar is None else And(BoolVal(ar['mat'].id == mat.id), tz(ar['k']) == k), kind='post')
             r = k - 1 - i
-            I.ob('post[C03]:singular-values-are-handed-back-in-descending-order (ARPACK returns them ascending)', Sa.elem(i) == AS(r), kind='post')
-            I.ob('post[C03]:each-singular-value-keeps-its-own-left-vector', Ua.elem(a, i) == SGN(i) * AU(a, r), kind='post')
-            I.ob('post[C03]:each-singular-value-keeps-its-own-right-vector-with-the-same-sign', Va.elem(i, a) == SGN(i) * AV(r, a), kind='post')
+            I.ob('post[C03]:singular-values-are-handed-back-in-descending-order (ARPACK returns them ascending)', Sa.elem(i) == cut(AS(r), AS(r)), kind='post')
+            I.ob('post[C03]:each-singular-value-keeps-its-own-left-vector', Ua.elem(a, i) == cut(AS(r), SGN(i) * AU(a, r)), kind='post')
+            I.ob('post[C03]:each-singular-value-keeps-its-own-right-vector-with-the-same-sign', Va.elem(i, a) == cut(AS(r), SGN(i) * AV(r, a)), kind='post')
         else:
             ar = I.cur.get('rand_args')
             I.ob('post[C03]:the-k-leading-triplets-of-the-matrix-handed-in-are-requested-with-sign-fixing', BoolVal(False) if ar is None else And(BoolVal(ar['mat'].id == mat.id and ar['flip_sign'] is True), tz(ar['k']) == k), kind='post')
-            I.ob('post[C03]:the-triplets-are-handed-back-unchanged', And(Sa.elem(i) == RS(i), Ua.elem(a, i) == RU(a, i), Va.elem(i, a) == RV(i, a)), kind='post')
+            I.ob('post[C03]:the-triplets-are-handed-back-unchanged', And(Sa.elem(i) == cut(RS(i), RS(i)), Ua.elem(a, i) == cut(RS(i), RU(a, i)), Va.elem(i, a) == cut(RS(i), RV(i, a))), kind='post')
     return Unit(f'{owner.split(".")[-1]}._decompose_truncated[{solver}]', body, functions=[q])
 
-UNITS = [lambda: u_truncated(PC, 'arpack'), lambda: u_truncated(PC, 'randomized')]      # KernelPCovR's variant additionally zeroes components below tol through boolean masks: not covered
+UNITS = [lambda: u_truncated(PC, 'arpack'), lambda: u_truncated(PC, 'randomized')]
+KUNITS = [lambda: u_truncated(KP, 'arpack'), lambda: u_truncated(KP, 'randomized')]      # KernelPCovR's variant additionally zeroes the components below tol
